@@ -13,6 +13,7 @@ RULE = ("the C08 and C09 histories (array, per-CPU and hash variables of every f
         "address) must be >= key size, value size, resp. round_up(value size, 8) x possible "
         "CPUs; the stub never touches more than the buffer holds; distinct = distinct "
         "(declarations, history) digests; non-trivial as in C08/C09")
+RULE += '; since the 4th session also an unusable possible-CPU file with a pinned process, and a large table whose creation is refused once with EPERM under a locked-memory limit'
 COMPONENTS = {
     "real": ["ebpfcat.bpf._lookup_elem/update_elem/delete_elem/get_next_key and their "
              "callers in hashmap.py, arraymap.py, ebpfcat.py"],
